@@ -69,7 +69,7 @@ def main (args : List String) : IO UInt32 := do
   | ["hash"] => loopPure stdin stdout hashStep; return 0
   | ["secrecy"] => loopPure stdin stdout secrecyStep; return 0
   | ["codec"] => loopPure stdin stdout codecStep; return 0
-  | "crash" :: _ => loopState stdin stdout crashStep ({} : CrashSt); return 0
+  | "crash" :: mode => loopState stdin stdout crashStep ({ dedupe := mode.head? != some "all" } : CrashSt); return 0
   | "dispatch" :: _ => loopState stdin stdout dispatchStep dispatchInit; return 0
   | ["agg"] => loopState stdin stdout aggStep AggState.empty; return 0
   | ["dkgrun"] => loopPure stdin stdout dkgrunStep; return 0
